@@ -43,16 +43,16 @@ fn dec_to_atomics(d: Decimal) -> u128 {
 impl PoolRun {
     pub fn new(kinds: [bool; 2], decimals: [u8; 2], fees: [u128; 3], ptype: PairType, fund: u128) -> PoolRun { PoolRun::new_spelled(kinds, decimals, fees, ptype, fund, false) }
 
-    /// `upper`: the pair is created with its cw20 assets' addresses spelled in upper case
+    /// `upper`: the pair's native assets are denoms with upper-case letters
     pub fn new_spelled(kinds: [bool; 2], decimals: [u8; 2], fees: [u128; 3], ptype: PairType, fund: u128, upper: bool) -> PoolRun {
         let mut w = World::new();
-        w.spell_upper = upper;
         let collector = w.new_fee_collector();
         let factory = w.new_pool_factory(&collector);
         let mut assets: Vec<A> = vec![];
         for i in 0..2 {
             if kinds[i] {
-                let d = if i == 0 { "uwhale" } else { "uusdc" };
+                // (`upper`: native denoms with upper-case letters, as IBC and liquid-staking denoms have)
+                let d = if i == 0 { if upper { "ampWHALE" } else { "uwhale" } } else if upper { "ibc/27394FB092D2ECCD56123C74F36E4C1F926001CEADA9CA97EA622B25F41E5EB2" } else { "uusdc" };
                 let a = w.add_denom(d);
                 w.factory_add_native(&factory, d, decimals[i]);
                 assets.push(a);
@@ -386,7 +386,7 @@ pub fn run_random(rec: &mut Rec, seed: u64, run: u64, nops: usize, stable: bool)
     let ptype = if stable { PairType::StableSwap { amp } } else { PairType::ConstantProduct };
     // every fourth pool with a cw20 asset is instantiated directly, with that asset's address spelled in upper case
     let mut p = if (run / 4) % 4 == 3 && cfg.kinds != [true, true] { PoolRun::new_direct(cfg.kinds, cfg.decimals, cfg.fees, ptype, fund) }
-                else { PoolRun::new(cfg.kinds, cfg.decimals, cfg.fees, ptype, fund) };
+                else { PoolRun::new_spelled(cfg.kinds, cfg.decimals, cfg.fees, ptype, fund, (run / 4) % 4 == 1) };
     rec.emit(json!({
         "ev": "reset", "suite": "pool", "run": run, "seed": seed.to_string(), "ops": nops,
         "extra": {"kind": if stable { "stable" } else { "cp" }},
